@@ -212,6 +212,7 @@ func negotiationAnchors(s *Sem) (*negAnchors, string) {
 
 func c09(r *Report, s *Sem) {
 	p := r.P
+	defer r.Import(s, "C12", "R4", "R10", "the upgrade really switches the byte path: the JSON encoder/decoder of a TCP transport are rebuilt over the wrapper of the current connection after a successful TLS handshake (never kept from the plain connection)", 8)
 	R1 := r.Rule("R1", "offer = configured ∩ supported: the option lists of the emitted negotiating envelope come only from the intersection helper applied to (configured list, Transport.Supported*()), and that helper only keeps elements of its first operand that pass a membership test in the second", 4)
 	R2 := r.Rule("R2", "membership gate: the confirmation is sent only on the ok edges of lookups of the peer's compression and encryption in sets built only from the offered lists, for a peer envelope in state negotiating carrying the session id; the confirmed pair is the peer's selection", 6)
 	R3 := r.Rule("R3", "the server applies what it confirmed: every success path from the confirmation to the driver's return passes SetCompression/SetEncryption with the confirmed value unless it crossed the edge 'already equal'; their errors are returned; authentication starts only on the negotiation's err == nil edge", 4)
@@ -461,6 +462,35 @@ func c09(r *Report, s *Sem) {
 
 	R7 := r.Rule("R7", "what is negotiable is what was configured: the lists handed to the server's EstablishSession are the configuration's fields, whose only writers install the constructor's constant defaults or replace the list wholesale with the caller's (never derived from the previous content, never extended by a constant)", 6)
 	checkConfiguredLists(r, s, R7, "SessionCompression", "SessionEncryption")
+	R9 := r.Rule("R9", "any other choice is answered with a failed session: a selection outside the known option names must reach the membership gate, so the option types decode without validation — no UnmarshalText/UnmarshalJSON on SessionCompression/SessionEncryption that can return an error (a decode error drops the connection without the failed envelope)", 2)
+	for _, tn := range []string{"SessionCompression", "SessionEncryption"} {
+		nt := p.Type(tn)
+		if nt == nil {
+			r.Undecided(R9, "anchor-unresolved:"+tn, "-", "type not found")
+			continue
+		}
+		bad := ""
+		for _, mn := range []string{"UnmarshalText", "UnmarshalJSON"} {
+			sel := types.NewMethodSet(types.NewPointer(nt)).Lookup(p.LimeT, mn)
+			if sel == nil {
+				continue
+			}
+			m := p.SSA.MethodValue(sel)
+			if m == nil || m.Blocks == nil {
+				continue
+			}
+			idx := m.Signature.Results().Len() - 1
+			if idx < 0 {
+				continue
+			}
+			for _, rl := range returnLeaves(m, idx) {
+				if !isNilConst(rl.v) {
+					bad = mn + " can return " + describe(rl.v)
+				}
+			}
+		}
+		r.Check(R9, "type "+tn+" / decodes any option name", p.pos(nt.Obj().Pos()), bad == "", bad)
+	}
 	R8 := r.Rule("R8", "a transport that merely reports its encryption (websocket: TLS belongs to the HTTP layer underneath) records 'tls' only on an edge proving TLS is in use — the listener's TLS-configuration test or the dialled URL's wss scheme — and the listener serves plain HTTP only where that test fails", 4)
 	checkReportedEncryption(r, s, R8)
 }
@@ -1251,6 +1281,7 @@ func evalLenFor(cd Cond, neg ssa.Value, L int64) (bool, bool) {
 
 func c10(r *Report, s *Sem) {
 	p := r.P
+	defer r.Import(s, "C12", "R4", "R6", "what is negotiated is what carries the bytes: the JSON encoder/decoder of a TCP transport are rebuilt over the wrapper of the *current* connection at construction and after a successful TLS handshake (streams cached from the plain connection would keep credentials in cleartext while Encryption() reports tls)", 8)
 	R1 := r.Rule("R1", "skipping negotiation is control-dependent on the current encryption: in the server's EstablishSession, for a non-empty negotiable encryption set, every path that reaches the authentication driver without passing the negotiation driver crosses an edge on which the single negotiable option was compared equal to Transport.Encryption() (abstract interpretation over len ∈ {1, ≥2})", 1)
 	R2 := r.Rule("R2", "the negotiable encryption set handed to the negotiation driver is the intersection of the configured list with the transport's capabilities (so a configured list without 'none' never yields 'none'), and negotiation results come from that set (C09.R2)", 1)
 	na, why := negotiationAnchors(s)
